@@ -65,6 +65,18 @@ Third wave (time representations: pyorbital/__init__.py, astronomy.py; `_get_max
                FloatingPointError when the uninterpreted predicate `FloatInvalid` says numpy signals `invalid`
                (comparisons, abs, min, max do not signal); `except FloatingPointError`
 
+Fourth wave (`SQLiteTLE.write_tle_txt`, `fetch_tles.run`):
+  files        `with open(name, "w") as fid:` / `fid.write(text)`: the function's result carries the list of (file, text) per
+               `write`, in order (`files__`; `[]`: nothing was opened); creating / truncating / closing the file is the
+               parameter `open_write`
+  loops        `for k, v in d.items():` over a dict the body does not change
+  store        `self.db.execute(sql).fetchone()` (a stateful parameter: first row or None); `a, b = row` on an Optional row
+               (TypeError on None); an f-string is accepted only as a declared cut point (the SQL text as a function of its hole)
+  objects      a module-level function working on ONE stateful object (`FnSpec(heap=...)`): its constructor and methods are
+               stateful parameters over an abstract state (`db = SQLiteTLE(...)`, `db.update_db(...)`)
+  dispatch     `isinstance(x, dict)` on what a downloader method delivered (`Fetched`: dict source -> entries, or list): inside
+               each branch the name holds the value of that kind; `getattr(obj, name)` as a parameter returning a callable
+
 Guards that keep the value semantics of the translation equal to Python's reference semantics (refusal otherwise):
   a local that may be unbound where it is read; a container that is changed in place while reachable under two names; a
   container parameter changed in place; a loop body that changes what the loop iterates over; a `try` body of more than
@@ -128,6 +140,8 @@ def lean_type(t):
         return "(FileArg IO)"
     if t == "response":
         return "Response"
+    if isinstance(t, tuple) and t[0] == "fetched":
+        return "(Fetched %s)" % lean_type(t[1])
     if t == NPV:
         return "(Np.Val F)"
     if t == "tz":
@@ -374,6 +388,10 @@ STORE_METHODS = {
     ("SQLiteTLE", "table_exists", ("str",)): Ext("table_exists_str", ["str"], "bool", [], "`table_exists(self.db, <str>)`",
                                                  stateful="DB"),
 }
+STORE_FETCHONE = {
+    "SQLiteTLE": Ext("db_fetchone_str2", ["str"], ("opt", ("tuple", ("str", "str"))), SQLERR,
+                     "`self.db.execute(sql).fetchone()` for a query of two text columns: the first row, or None", stateful="DB"),
+}
 HEAP_OPENERS = {
     "sqlite3.connect": Ext("sqlite3_connect", ["str"], "unit", ["sqlite3.OperationalError"],
                            "`self.db = sqlite3.connect(path)`: from here on the store is the database in that file", stateful="DB"),
@@ -396,6 +414,8 @@ SELF_METHOD_EXTS = {
     ("Orbital", "get_last_an_time"): Ext("get_last_an_time", [T64], T64, ["Exception"],
                                          "`self.get_last_an_time(t)` (cut point; tied separately); does not touch the cache slots"),
 }
+OPEN_W = Ext("open_write", ["str"], ("abs", "WFile"), ["OSError"],
+             "`with open(fname, \"w\") as fid`: the file created / truncated for writing (closing it on exit is not kept)")
 CONTEXT_MANAGERS = {
     "requests.Session": Ext("requests_Session", [], ("abs", "Session"), [],
                             "`with requests.Session() as session` (closing the session on exit is not kept)"),
@@ -481,6 +501,55 @@ CUTS += [
     ("SATID_TABLE.format(_A)", Ext("satid_table_text", ["int"], "str", [], "`SATID_TABLE.format(num)` (SQL text)")),
     ("SATID_VALUES.format(_A)", Ext("satid_values_text", ["int"], "str", [], "`SATID_VALUES.format(num)` (SQL text)")),
 ]
+WC = ("abs", "WriterConfig")
+CUTS += [
+    ("_A.get('write_always', False)", Ext("writer_config_write_always", [WC], "bool", [],
+                                          "the truth value of `writer_config.get(\"write_always\", False)`")),
+    ("_A.get('write_name', False)", Ext("writer_config_write_name", [WC], "bool", [],
+                                        "the truth value of `writer_config.get(\"write_name\", False)`")),
+    ("_A['output_dir']", Ext("writer_config_output_dir", [WC], "str", ["KeyError"], "`writer_config[\"output_dir\"]`")),
+    ("_A['filename_pattern']", Ext("writer_config_filename_pattern", [WC], "str", ["KeyError"],
+                                   "`writer_config[\"filename_pattern\"]`")),
+    ("f\"SELECT epoch, tle FROM '{_A:d}' ORDER BY epoch DESC LIMIT 1\"",
+     Ext("select_newest_text", ["int"], "str", [],
+         "the f-string `SELECT epoch, tle FROM '{satid:d}' ORDER BY epoch DESC LIMIT 1` as a function of satid (SQL text)")),
+    ("(_utcnow() - _A).total_seconds() / 3600.0",
+     Ext("age_hours", [("abs", "DateTime")], F, [], "`(_utcnow() - d).total_seconds() / 3600.` (the wall clock; only logged)")),
+]
+EXTERNALS["_utcnow"] = Ext("utcnow", [], ("abs", "Now"), [], "`_utcnow()`: the wall clock read for the file name")
+EXTERNALS["os.path.dirname"] = Ext("os_path_dirname", ["str"], "str", [], "`os.path.dirname(p)`")
+EXTERNALS["os.makedirs"] = Ext("os_makedirs", ["str"], "unit", ["OSError"],
+                               "`os.makedirs(p)`: only whether it raises is kept (the directory it creates is not)")
+EXTERNALS["dt.datetime.fromisoformat"] = Ext("datetime_fromisoformat", ["str"], ("abs", "DateTime"), ["ValueError"],
+                                             "`dt.datetime.fromisoformat(text)`")
+ABS_METHODS[("Now", "strftime")] = Ext("now_strftime", [("abs", "Now"), "str"], "str", ["ValueError"],
+                                       "`now.strftime(pattern)`", argnames=["self", "format"])
+CFG = ("abs", "Config")
+ARCH = ("abs", "Archive")
+CUTS += [
+    ("read_config(sys.argv[1])", Ext("read_config_argv", [], CFG, ["IndexError", "OSError", "yaml.YAMLError"],
+                                     "`read_config(sys.argv[1])`: the parsed configuration file named on the command line")),
+    ("'logging' in _A", Ext("config_has_logging", [CFG], "bool", ["TypeError"], "`\"logging\" in config`")),
+    ("logging.config.dictConfig(_A['logging'])", Ext("logging_dictConfig", [CFG], "unit", ["ValueError", "KeyError", "TypeError"],
+                                                      "`logging.config.dictConfig(config[\"logging\"])` (what it configures is not kept)")),
+    ("logging.basicConfig(level=logging.INFO)", Ext("logging_basicConfig", [], "unit", [], "`logging.basicConfig(level=logging.INFO)` (not kept)")),
+    ("SQLiteTLE(_A['database']['path'], _B['platforms'], _C['text_writer'])",
+     Ext("open_archive", [CFG, CFG, CFG], ARCH, ["KeyError", "TypeError", "sqlite3.OperationalError"],
+         "`SQLiteTLE(a[\"database\"][\"path\"], b[\"platforms\"], c[\"text_writer\"])`: the archive object; from here on the "
+         "state is this object's", stateful="AS")),
+    ("_A['downloaders']", Ext("config_downloaders", [CFG], lst("str"), ["KeyError", "TypeError"],
+                              "`config[\"downloaders\"]`: the names it yields when iterated, in order")),
+]
+EXTERNALS["Downloader"] = Ext("new_Downloader", [CFG], ("abs", "DownloaderObj"), ["Exception"], "`Downloader(config)`")
+EXTERNALS["getattr"] = Ext("downloader_getattr", [("abs", "DownloaderObj"), "str"], ("fn", (), ("fetched", ("abs", "E"))),
+                           ["AttributeError"], "`getattr(downloader, name)`: the bound method; calling it delivers a dict "
+                           "source -> entries or a list of entries (or raises)")
+ABS_METHODS[("Archive", "update_db")] = Ext("archive_update_db", [ARCH, ("abs", "E"), "str"], "unit", ["Exception"],
+                                            "`db.update_db(tle, source)`", argnames=["self", "tle", "source"], stateful="AS")
+ABS_METHODS[("Archive", "write_tle_txt")] = Ext("archive_write_tle_txt", [ARCH], "unit", ["Exception"], "`db.write_tle_txt()`",
+                                                argnames=["self"], stateful="AS")
+ABS_METHODS[("Archive", "close")] = Ext("archive_close", [ARCH], "unit", ["Exception"], "`db.close()`", argnames=["self"],
+                                        stateful="AS")
 GLOBALS["SGDP4_ZERO_ECC"] = Ext("SGDP4_ZERO_ECC", [], "int", [], "module constant `SGDP4_ZERO_ECC`")
 GLOBALS["SGDP4_NEAR_NORM"] = Ext("SGDP4_NEAR_NORM", [], "int", [], "module constant `SGDP4_NEAR_NORM`")
 GLOBALS["PLATFORM_VALUES"] = Ext("PLATFORM_VALUES", [], "str", [], "module constant `PLATFORM_VALUES` (SQL text)")
@@ -524,7 +593,8 @@ class Const:
 
 class FnSpec:
     def __init__(self, module, qualname, params, cls=None, int_is_cut=False, special=None, lean=None, ret=None, cuts=(),
-                 locals_=None, maybe_unbound=(), npvals=False):
+                 locals_=None, maybe_unbound=(), npvals=False, heap=None):
+        self.heap = heap                      # a module-level function working on one stateful object (its state: the heap)
         self.npvals = npvals                  # `np.timedelta64(k, unit)` is a tagged value (`Np.Val`), not a `TimeOps` term
         self.maybe_unbound = set(maybe_unbound)   # locals that may be read while unbound (UnboundLocalError): held as Option
         self.fuel = 0
@@ -581,6 +651,7 @@ SPEC = [
            locals_={"risetime": opt(UTC), "risemins": opt(F)}),
     FnSpec("tlefile", "SQLiteTLE.__init__", ["str", ("dict", "int", "str"), ("abs", "WriterConfig")], cls="SQLiteTLE"),
     FnSpec("tlefile", "SQLiteTLE.update_db", [("abs", "TleObj"), "str"], cls="SQLiteTLE"),
+    FnSpec("tlefile", "SQLiteTLE.write_tle_txt", [], cls="SQLiteTLE"),
     # third wave: which branch for which kind of time value, and the tick arithmetic in each (C08, C12)
     FnSpec("__init__", "dt2np", [NPV], npvals=True),
     FnSpec("astronomy", "_days", [NPV], npvals=True),
@@ -590,6 +661,7 @@ SPEC = [
     FnSpec("orbital", "_get_tz_unaware_utctime", [NPV], npvals=True),
     FnSpec("orbital", "Orbital.utc2local", [UTC], cls="Orbital"),
     FnSpec("orbital", "_get_max_parab", [FFN, F, F, F], cuts=["_get_min_bounded"]),
+    FnSpec("fetch_tles", "run", [], heap=("abs", "AS")),
     FnSpec("tlefile", "Downloader.fetch_spacetrack", [], cls="Downloader"),
     FnSpec("tlefile", "Downloader.fetch_plain_tle", [], cls="Downloader",
            locals_={"tles": ("dict", "str", lst(("abs", "E")))}),
@@ -706,6 +778,9 @@ class FnTrans:
         self.float_ops = False
         self.float_arith = False
         self.time_ops = False
+        self.file_log = any(isinstance(x, ast.With) and len(x.items) == 1 and isinstance(x.items[0].context_expr, ast.Call)
+                            and ast.unparse(x.items[0].context_expr.func) == "open" and len(x.items[0].context_expr.args) == 2
+                            and ast.unparse(x.items[0].context_expr.args[1]) == "'w'" for x in ast.walk(node))
         self.fp_raise = False    # inside `with np.errstate(invalid="raise")`
         self.fp_used = False
         self.stateful = False
@@ -820,6 +895,9 @@ class FnTrans:
                 lines.insert(0, "  let mut self := self")
         for n in self.iter_params:
             lines.insert(0, "  let mut %s := %s" % (self.ln(n), self.ln(n)))
+        if self.file_log:
+            # what the function writes to files opened for writing: (file, text) per `write` call, in order
+            lines.insert(0, "  let mut files__ : List (WFile × Str) := []")
         for n, t in self.params:
             if n in self.reassigned_params:
                 lines.insert(0, "  let mut %s := %s" % (self.ln(n), self.ln(n)))
@@ -839,6 +917,8 @@ class FnTrans:
         if self.cls is not None and (self.writes_self or self.in_init):
             parts.append("self")
         parts += [self.ln(n) for n in self.iter_params]
+        if self.file_log:
+            parts.append("files__")
         return parts
 
     def pack_return(self, value_code):
@@ -870,7 +950,8 @@ class FnTrans:
 
     def use_ext(self, ext):
         if ext.stateful:
-            if self.cls is None or self.cls.get("heap") != ("abs", ext.stateful):
+            own = self.cls.get("heap") if self.cls is not None else self.spec.heap
+            if own != ("abs", ext.stateful):
                 raise TransError("%s: the external %s works on the store of another class" % (self.spec.qualname, ext.param))
             self.stateful = True
         if ext not in self.ext_used:
@@ -1563,6 +1644,13 @@ class FnTrans:
 
     def method_call(self, n, f, args, kws):
         m = f.attr
+        if m == "fetchone" and not args and not kws and isinstance(f.value, ast.Call) and self.cls is not None \
+                and self.cls.get("heap_attr") and ast.unparse(f.value.func) == "self.%s.execute" % self.cls["heap_attr"] \
+                and len(f.value.args) == 1 and not f.value.keywords:
+            q = self.coerce(self.expr(f.value.args[0]), "str", n)
+            ext = STORE_FETCHONE[self.spec.cls]
+            self.use_ext(ext)
+            return E("%s %s" % (ext.param, paren(q.sub())), ext.ret, True)
         if self.cls is not None and self.cls.get("heap_attr") and ast.unparse(f.value) == "self." + self.cls["heap_attr"]:
             if kws:
                 raise self.err(n, "keyword arguments to a method of the store")
@@ -1951,6 +2039,11 @@ class FnTrans:
                 self.retype(name, t, s)
             e = self.coerce(e, t[1], s)
             return pre + [self.ind(depth, "%s := %s ++ [%s]" % (self.ln(name), self.ln(name), e.sub()))]
+        if isinstance(v.func, ast.Attribute) and v.func.attr == "write" and isinstance(v.func.value, ast.Name) \
+                and self.env.get(v.func.value.id) == ("abs", "WFile") and len(v.args) == 1 and not v.keywords:
+            fid = self.e_Name(v.func.value)
+            e = self.coerce(self.rhs(v.args[0], depth, pre), "str", s)
+            return pre + [self.ind(depth, "files__ := files__ ++ [(%s, %s)]" % (fid.sub(), e.sub()))]
         e = self.rhs(v, depth, pre)
         if e.ty != "unit":
             # a call whose value is discarded
@@ -2107,6 +2200,8 @@ class FnTrans:
         e = self.rhs(s.value, depth, pre)
         if isinstance(tgt, ast.Tuple):
             n = len(tgt.elts)
+            if isinstance(e.ty, tuple) and e.ty[0] == "opt" and isinstance(e.ty[1], tuple) and e.ty[1][0] == "tuple":
+                e = self.unopt(e, s)      # unpacking None is a TypeError
             if isinstance(e.ty, tuple) and e.ty[0] == "tuple" and len(e.ty[1]) == n:
                 tmp = self.fresh("u")
                 pre.append(self.ind(depth, "let %s %s %s" % (tmp, "←" if e.mon else ":=", e.code)))
@@ -2218,6 +2313,41 @@ class FnTrans:
         c = self.static_truth(s.test)
         if c is not None:
             return self.block_inline(s.body if c else s.orelse, depth)
+        t = s.test
+        if isinstance(t, ast.Call) and ast.unparse(t.func) == "isinstance" and len(t.args) == 2 and isinstance(t.args[0], ast.Name) \
+                and ast.unparse(t.args[1]) == "dict" and isinstance(self.env.get(t.args[0].id), tuple) \
+                and self.env[t.args[0].id][0] == "fetched" and s.orelse:
+            # what a downloader method delivered: a dict (source -> entries) or a list of entries; inside each branch the
+            # name holds the value of that kind (a new Lean variable)
+            nm = t.args[0].id
+            if nm in self.mutated or any(isinstance(x, ast.Name) and x.id == nm and isinstance(x.ctx, ast.Store)
+                                         for st in s.body + s.orelse for x in ast.walk(st)):
+                raise self.err(s, "the tested name is assigned / changed inside the branches")
+            ft, el = self.env[nm], self.env[nm][1]
+            old_ln = self.ln(nm)
+            a0, sa0 = set(self.assigned), set(self.self_assigned)
+            outs = []
+            lines = [self.ind(depth, "if Fetched.isDict %s then" % old_ln)]
+            for branch, ty, proj in ((s.body, ("dict", "str", lst(el)), "Fetched.dict"), (s.orelse, lst(el), "Fetched.list")):
+                self.tmp += 1
+                fresh = "%s__%d" % (nm, self.tmp)
+                saved = self.rename.get(nm)
+                self.rename[nm] = fresh
+                self.env[nm] = ty
+                body, o, so = self.branch(branch, depth + 1, a0)
+                self.env[nm] = ft
+                if saved is None:
+                    del self.rename[nm]
+                else:
+                    self.rename[nm] = saved
+                outs.append(o)
+                if branch is s.orelse:
+                    lines.append(self.ind(depth, "else"))
+                lines.append(self.ind(depth + 1, "let %s : %s := %s %s" % (lname(fresh), lean_type(ty), proj, old_ln)))
+                lines += body
+            self.assigned = self.merge(outs)
+            self.self_assigned = sa0
+            return lines
         pre = []
         cond = self.truthy(self.rhs(s.test, depth, pre), s.test)
         a0 = set(self.assigned)
@@ -2289,6 +2419,10 @@ class FnTrans:
     def s_For(self, s, depth):
         if s.orelse:
             raise self.err(s, "for ... else")
+        if isinstance(s.target, ast.Tuple) and len(s.target.elts) == 2 and all(isinstance(x, ast.Name) for x in s.target.elts) \
+                and isinstance(s.iter, ast.Call) and isinstance(s.iter.func, ast.Attribute) and s.iter.func.attr == "items" \
+                and not s.iter.args and not s.iter.keywords:
+            return self.for_items(s, depth)
         if not isinstance(s.target, ast.Name):
             raise self.err(s, "loop target that is not a name")
         var = s.target.id
@@ -2347,6 +2481,40 @@ class FnTrans:
         self.scoped_out[var] = self.env.pop(var)
         self.assigned = a0
         return pre + [self.ind(depth, "for %s in %s do" % (self.ln(var), itcode))] + body
+
+    def for_items(self, s, depth):
+        """`for k, v in d.items():` over a dict that the body does not change (insertion order)"""
+        pre = []
+        d = self.rhs(s.iter.func.value, depth, pre)
+        if not (isinstance(d.ty, tuple) and d.ty[0] == "dict"):
+            raise self.err(s, ".items() of a %s" % (d.ty,))
+        kn, vn = s.target.elts[0].id, s.target.elts[1].id
+        for nm in (kn, vn):
+            if nm in self.env or nm in self.hoist or nm in self.consts:
+                raise self.err(s, "loop variable re-uses the name of another local")
+        root = ast.unparse(s.iter.func.value)
+        for x in ast.walk(ast.Module(body=s.body, type_ignores=[])):
+            if isinstance(x, (ast.Assign, ast.AugAssign)):
+                for t in (x.targets if isinstance(x, ast.Assign) else [x.target]):
+                    if ast.unparse(t).startswith(root):
+                        raise self.err(s, "the loop body changes `%s`, which the loop iterates over" % root)
+        a0 = set(self.assigned)
+        self.tmp += 1
+        pv = "kv__%d" % self.tmp
+        self.env[kn], self.env[vn] = d.ty[1], d.ty[2]
+        self.assigned |= {kn, vn}
+        self.loop_depth += 1
+        sa = set(self.self_assigned)
+        body = self.block(s.body, depth + 1)
+        self.self_assigned = sa
+        self.loop_depth -= 1
+        for nm in (kn, vn):
+            self.scoped_out[nm] = self.env.pop(nm)
+        self.assigned = a0
+        head = [self.ind(depth, "for %s in %s do" % (pv, d.sub())),
+                self.ind(depth + 1, "let %s : %s := %s.1" % (self.ln(kn), lean_type(d.ty[1]), pv)),
+                self.ind(depth + 1, "let %s : %s := %s.2" % (self.ln(vn), lean_type(d.ty[2]), pv))]
+        return pre + head + body
 
     def s_While(self, s, depth):
         """`while cond: body` with fuel: the Lean function gets one more parameter `fuel_k : Nat` per loop; at most `fuel_k`
@@ -2519,6 +2687,13 @@ class FnTrans:
             raise self.err(s, "with statement of this shape")
         call = s.items[0].context_expr
         fname = ast.unparse(call.func)
+        if fname == "open" and len(call.args) == 2 and ast.unparse(call.args[1]) == "'w'" and not call.keywords:
+            # a text file opened for writing (created / truncated): what is written is logged in `files__`
+            ext = OPEN_W
+            a = self.coerce_arg(self.expr(call.args[0]), "str", call.args[0])
+            self.use_ext(ext)
+            lines = self.declare_or_assign(s.items[0].optional_vars.id, E("%s %s" % (ext.param, paren(a.sub())), ext.ret, True), depth, s)
+            return lines + self.block_inline(s.body, depth)
         if fname not in CONTEXT_MANAGERS or call.keywords:
             raise self.err(s, "context manager")
         ext = CONTEXT_MANAGERS[fname]
@@ -2572,11 +2747,13 @@ def signature(ft, lean_name):
             tv.add(v)
     if ft.float_ops or ft.float_arith:
         tv.add("F")
+    if ft.file_log:
+        tv.add("WFile")
     if ft.time_ops:
         tv.add("T")
         tv.add("TD")
     if ft.stateful:
-        for v in HEAP_TVARS[ft.spec.cls]:
+        for v in (HEAP_TVARS[ft.spec.cls] if ft.spec.cls else [ft.spec.heap[1]]):
             tv.add(v)
     tv = sorted(tv)
     b = []
@@ -2609,6 +2786,8 @@ def signature(ft, lean_name):
         parts.append(SELF_TYPES[ft.spec.cls])
     for n in ft.iter_params:
         parts.append(lean_type(dict(ft.params)[n]))
+    if ft.file_log:
+        parts.append("(List (WFile × Str))")
     res = "Unit" if not parts else (parts[0] if len(parts) == 1 else "(" + " × ".join(parts) + ")")
     return tv, b, res
 
@@ -2715,7 +2894,7 @@ def gen_translated():
             lean_name += "__" + "_".join("%s_%s" % (k, v) for k, v in sorted(ft.special_names.items()))
         ft.ext_used.sort(key=lambda x: x.param)
         tv, binders, res = signature(ft, lean_name)
-        monad = "MS %s" % HEAP_TYPES[spec.cls] if ft.stateful else "M"
+        monad = "MS %s" % (HEAP_TYPES[spec.cls] if spec.cls else spec.heap[1]) if ft.stateful else "M"
         d = Done(spec, lean_name, list(ft.ext_used), tv, None, list(ft.params), ft.ret, ft.writes_self or ft.in_init,
                  list(ft.iter_params))
         d.node = ft.node
